@@ -50,7 +50,11 @@ impl Oracle for C17 {
         let node = rec.step.node;
         let Some(l) = w.ledger.iter().find(|l| l.origin == *msg).cloned() else { return };
         let pk = w.nodes[node].pubkey().to_hex();
-        let member_of_epoch = w.state_info.get(&l.state).map(|s| s.members.contains(&pk)).unwrap_or(false);
+        // the epoch that counts is the one the file was encrypted in (an upload takes time: the
+        // announcing message may have been created some commits later)
+        let (enc_epoch, enc_state) = w.media_enc_state.get(msg).cloned().unwrap_or((l.epoch, l.state.clone()));
+        let slow_upload = w.media_enc_state.contains_key(msg);
+        let member_of_epoch = w.state_info.get(&enc_state).map(|s| s.members.contains(&pk)).unwrap_or(false);
         let stored_valid = rec.outcome.contains("stored=processed") || rec.outcome.contains("stored=created");
         let ok = rec.class == "media_ok";
         let equal = rec.outcome.contains("equal=true");
@@ -67,9 +71,12 @@ impl Oracle for C17 {
             }
         } else {
             if ok && !member_of_epoch {
-                viols.push(("non-member-of-the-epoch-decrypted", format!("n{node} was not a member of the state the file was encrypted in (epoch {}): {}", l.epoch, rec.outcome)));
+                viols.push(("non-member-of-the-epoch-decrypted", format!("n{node} was not a member of the state the file was encrypted in (epoch {}): {}", enc_epoch, rec.outcome)));
             }
             if member_of_epoch && stored_valid {
+                if slow_upload {
+                    w.probe("decrypt_attempt_of_a_file_announced_after_a_commit");
+                }
                 if cur_epoch > l.epoch {
                     self.later_epoch = true;
                     w.probe("decrypt_attempt_at_later_epoch");
@@ -93,7 +100,7 @@ impl Oracle for C17 {
                     if kf.is_none() && accepts.len() >= 2 && stored_at.map(|s| accepts.iter().any(|a| *a > s)).unwrap_or(false) {
                         kf = Some("KF-C17-2".to_string());
                     }
-                    viols.push(("member-of-the-epoch-cannot-decrypt", format!("n{node} (member of the sending epoch {}, now at epoch {cur_epoch}, announcing message stored and valid): {}", l.epoch, rec.outcome)));
+                    viols.push(("member-of-the-epoch-cannot-decrypt", format!("n{node} (member of the encrypting epoch {enc_epoch}, announced in epoch {}, now at epoch {cur_epoch}, announcing message stored and valid): {}", l.epoch, rec.outcome)));
                 }
             }
         }
@@ -119,6 +126,15 @@ fn media_hook(gn: &mut Gen, w: &mut World) -> Option<Step> {
         let tamper = if gn.rng().chance(1, 2) { 0 } else { 1 + gn.rng().below(5) as u8 };
         let seed = gn.rng().next() as u32;
         return Some(gn.mk(w, node, 0, Op::GroupImageDownload { g, tamper, seed }));
+    }
+    // slow upload: encrypt now, announce with the client's next message
+    if !w.groups.is_empty() && gn.rng().chance(1, 5) {
+        let g = gn.rng().below(w.groups.len() as u64) as usize;
+        let members: Vec<usize> = (0..w.nodes.len()).filter(|n| w.is_active_member(*n, g)).collect();
+        if let Some(node) = gn.rng().pick(&members).copied() {
+            let tag = 5000 + gn.emitted as u32;
+            return Some(gn.mk(w, node, 0, Op::MediaEncrypt { g, tag }));
+        }
     }
     let media: Vec<EvRef> = w.blobs.keys().copied().collect();
     if media.is_empty() {
